@@ -381,7 +381,14 @@ def merge_render_with_diff3(b, l, r, strategy=None):
         return r, 0
     elif strategy is not None:
         warning("Using diff3 but ignoring strategy %s", strategy)
+    # diff3 glues its conflict markers to a final line that lacks a line
+    # ending, so make sure all texts end with a newline while merging
+    b, l, r = as_text(b), as_text(l), as_text(r)
+    added_newline = bool(l) and bool(r) and not (l.endswith('\n') or r.endswith('\n'))
+    b, l, r = (t + '\n' if t and not t.endswith('\n') else t for t in (b, l, r))
     merged, status = external_merge_render(cmd.split(), b, l, r)
+    if added_newline and status == 0 and merged.endswith('\n'):
+        merged = merged[:-1]
     return merged, status
 
 
